@@ -713,6 +713,330 @@ impl Model for ServerLife {
     }
 }
 
+// ---------------------------------------------------------------------------------------------
+// client side with server push: promised streams the application polls, ignores, or abandons with their parent
+
+#[derive(Clone, Debug)]
+pub enum PEv {
+    /// PUSH_PROMISE on the request stream (promised stream 2, then 4)
+    PeerPromise,
+    /// response head on promised stream j (END_STREAM or not)
+    PeerPushHead(usize, bool),
+    /// 4 octets + END_STREAM on promised stream j
+    PeerPushData(usize),
+    PeerPushRst(usize),
+    /// response to the request itself, with END_STREAM
+    PeerRespondEos,
+    PollResponse,
+    /// take the PushPromises handle of the response future
+    TakePromises,
+    PollPromise,
+    DropPromises,
+    PollPushed(usize),
+    ReadPushed(usize),
+    DropPushedFuture(usize),
+    DropPushedBody(usize),
+    DropRf,
+    DropBody,
+    Drive,
+}
+
+pub struct PushedH {
+    pub sid: u32,
+    pub prf: Option<client::PushedResponseFuture>,
+    pub body: Option<RecvStream>,
+}
+
+pub struct PWorld {
+    pub sr: Option<client::SendRequest<Bytes>>,
+    pub sid: u32,
+    pub rf: Option<client::ResponseFuture>,
+    pub body: Option<RecvStream>,
+    pub pp: Option<client::PushPromises>,
+    pub pushed: Vec<PushedH>,
+    /// promised ids in the order the peer announced them
+    pub promised: Vec<u32>,
+    pub taken: u64,
+}
+
+pub struct PushLife {
+    pub events: Vec<PEv>,
+    pub name: &'static str,
+}
+
+impl PushLife {
+    pub fn new(name: &'static str, quick: bool) -> PushLife {
+        let n = if quick { 1 } else { 2 };
+        let mut ev = vec![PEv::PeerPromise, PEv::PeerRespondEos, PEv::PollResponse, PEv::TakePromises, PEv::PollPromise, PEv::DropPromises, PEv::DropRf, PEv::DropBody];
+        for j in 0..n {
+            ev.push(PEv::PeerPushHead(j, true));
+            ev.push(PEv::PeerPushHead(j, false));
+            ev.push(PEv::PeerPushData(j));
+            ev.push(PEv::PeerPushRst(j));
+            ev.push(PEv::PollPushed(j));
+            ev.push(PEv::ReadPushed(j));
+            ev.push(PEv::DropPushedFuture(j));
+            ev.push(PEv::DropPushedBody(j));
+        }
+        ev.push(PEv::Drive);
+        PushLife { events: ev, name }
+    }
+    fn max_promises(&self) -> usize {
+        self.events.iter().filter(|e| matches!(e, PEv::PeerPushRst(_))).count()
+    }
+}
+
+fn peer_headers_on(t: &T2, sid: u32) -> bool {
+    t.mon.frames.iter().any(|f| f.sender != t.role && f.raw.stream() == sid && f.raw.ty == wf::ty::HEADERS)
+}
+
+impl Model for PushLife {
+    type World = PWorld;
+    fn name(&self) -> &'static str {
+        self.name
+    }
+    fn cfg(&self) -> T2Cfg {
+        let mut cb = client::Builder::new();
+        cb.enable_push(true);
+        cb.reset_stream_duration(std::time::Duration::from_secs(3600));
+        cb.max_concurrent_reset_streams(2);
+        cb.initial_window_size(6);
+        T2Cfg { role: Side::Client, peer_settings: vec![], client: Some(cb), server: None, policy: IoPolicy::default() }
+    }
+    fn init(&self, t: &mut T2) -> PWorld {
+        let mut sr = t.send_request.take().unwrap();
+        let flag = Flag::new(false);
+        let wk = waker_of(&flag);
+        let mut cx = Context::from_waker(&wk);
+        let _ = sr.poll_ready(&mut cx);
+        let (rf, ss) = sr.send_request(simple_request("/p", false), true).expect("send_request");
+        drop(ss);
+        let sid = rf.stream_id().as_u32();
+        t.drive(50);
+        PWorld { sr: Some(sr), sid, rf: Some(rf), body: None, pp: None, pushed: vec![], promised: vec![], taken: 0 }
+    }
+    fn n_events(&self) -> usize {
+        self.events.len()
+    }
+    fn event_name(&self, e: usize) -> String {
+        format!("{:?}", self.events[e])
+    }
+    fn enabled(&self, t: &T2, w: &PWorld, e: usize) -> bool {
+        if !t.conn_alive() {
+            return false;
+        }
+        let parent_open_for_peer = !peer_closed(t, w.sid) && t.rst_sent(w.sid).is_empty();
+        let psid = |j: usize| w.promised.get(j).copied();
+        let h = |j: usize| psid(j).and_then(|s| w.pushed.iter().find(|p| p.sid == s));
+        match &self.events[e] {
+            PEv::PeerPromise => parent_open_for_peer && w.promised.len() < self.max_promises(),
+            PEv::PeerRespondEos => parent_open_for_peer,
+            PEv::PeerPushHead(j, _) => psid(*j).map(|s| !peer_headers_on(t, s) && !peer_closed(t, s) && t.rst_sent(s).is_empty()).unwrap_or(false),
+            PEv::PeerPushData(j) => psid(*j).map(|s| peer_headers_on(t, s) && !peer_closed(t, s) && t.rst_sent(s).is_empty()).unwrap_or(false),
+            PEv::PeerPushRst(j) => psid(*j).map(|s| !peer_rst(t, s)).unwrap_or(false),
+            PEv::PollResponse | PEv::DropRf => w.rf.is_some(),
+            PEv::TakePromises => w.rf.is_some() && w.pp.is_none() && w.taken < 1,
+            PEv::PollPromise | PEv::DropPromises => w.pp.is_some(),
+            PEv::PollPushed(j) | PEv::DropPushedFuture(j) => h(*j).map(|p| p.prf.is_some()).unwrap_or(false),
+            PEv::ReadPushed(j) | PEv::DropPushedBody(j) => h(*j).map(|p| p.body.is_some()).unwrap_or(false),
+            PEv::DropBody => w.body.is_some(),
+            PEv::Drive => true,
+        }
+    }
+    fn apply(&self, t: &mut T2, w: &mut PWorld, e: usize) {
+        let mut panics = vec![];
+        let flag = Flag::new(false);
+        let wk = waker_of(&flag);
+        let mut cx = Context::from_waker(&wk);
+        let psid = |w: &PWorld, j: usize| w.promised[j];
+        match self.events[e].clone() {
+            PEv::PeerPromise => {
+                let promised = 2 + 2 * w.promised.len() as u32;
+                let b = T2::block(&[(":method", "GET"), (":scheme", "http"), (":authority", "h.example"), (":path", "/pushed")]);
+                t.peer_send(&wf::push_promise(w.sid, promised, &b, true));
+                w.promised.push(promised);
+            }
+            PEv::PeerRespondEos => t.peer_response(w.sid, "200", true),
+            PEv::PeerPushHead(j, eos) => {
+                let s = psid(w, j);
+                t.peer_response(s, "200", eos);
+            }
+            PEv::PeerPushData(j) => {
+                let s = psid(w, j);
+                t.peer_send(&wf::data(s, b"push", true));
+            }
+            PEv::PeerPushRst(j) => {
+                let s = psid(w, j);
+                t.peer_send(&wf::rst_stream(s, 8));
+            }
+            PEv::PollResponse => {
+                let rf = w.rf.as_mut().unwrap();
+                match guarded(&mut panics, "poll response", || Pin::new(rf).poll(&mut cx)) {
+                    Some(Poll::Ready(Ok(resp))) => {
+                        w.body = Some(resp.into_body());
+                        safe_drop(&mut panics, "ResponseFuture", w.rf.take());
+                    }
+                    Some(Poll::Ready(Err(_))) => safe_drop(&mut panics, "ResponseFuture", w.rf.take()),
+                    _ => {}
+                }
+            }
+            PEv::TakePromises => {
+                if let Some(pp) = guarded(&mut panics, "push_promises", || w.rf.as_mut().unwrap().push_promises()) {
+                    w.pp = Some(pp);
+                    w.taken += 1;
+                }
+            }
+            PEv::PollPromise => {
+                let pp = w.pp.as_mut().unwrap();
+                match guarded(&mut panics, "poll_push_promise", || pp.poll_push_promise(&mut cx)) {
+                    Some(Poll::Ready(Some(Ok(p)))) => {
+                        let (_req, prf) = p.into_parts();
+                        let sid = prf.stream_id().as_u32();
+                        w.pushed.push(PushedH { sid, prf: Some(prf), body: None });
+                    }
+                    Some(Poll::Ready(_)) => safe_drop(&mut panics, "PushPromises", w.pp.take()),
+                    _ => {}
+                }
+            }
+            PEv::DropPromises => safe_drop(&mut panics, "PushPromises", w.pp.take()),
+            PEv::PollPushed(j) => {
+                let s = psid(w, j);
+                if let Some(p) = w.pushed.iter_mut().find(|p| p.sid == s) {
+                    let prf = p.prf.as_mut().unwrap();
+                    match guarded(&mut panics, "poll pushed response", || Pin::new(prf).poll(&mut cx)) {
+                        Some(Poll::Ready(Ok(resp))) => {
+                            p.body = Some(resp.into_body());
+                            safe_drop(&mut panics, "PushedResponseFuture", p.prf.take());
+                        }
+                        Some(Poll::Ready(Err(_))) => safe_drop(&mut panics, "PushedResponseFuture", p.prf.take()),
+                        _ => {}
+                    }
+                }
+            }
+            PEv::ReadPushed(j) => {
+                let s = psid(w, j);
+                if let Some(b) = w.pushed.iter_mut().find(|p| p.sid == s).and_then(|p| p.body.as_mut()) {
+                    for _ in 0..8 {
+                        match guarded(&mut panics, "poll_data", || b.poll_data(&mut cx)) {
+                            Some(Poll::Ready(Some(Ok(d)))) => {
+                                let _ = b.flow_control().release_capacity(d.len());
+                            }
+                            _ => break,
+                        }
+                    }
+                }
+            }
+            PEv::DropPushedFuture(j) => {
+                let s = psid(w, j);
+                if let Some(p) = w.pushed.iter_mut().find(|p| p.sid == s) {
+                    safe_drop(&mut panics, "PushedResponseFuture", p.prf.take());
+                }
+            }
+            PEv::DropPushedBody(j) => {
+                let s = psid(w, j);
+                if let Some(p) = w.pushed.iter_mut().find(|p| p.sid == s) {
+                    safe_drop(&mut panics, "RecvStream", p.body.take());
+                }
+            }
+            PEv::DropRf => safe_drop(&mut panics, "ResponseFuture", w.rf.take()),
+            PEv::DropBody => safe_drop(&mut panics, "RecvStream", w.body.take()),
+            PEv::Drive => {
+                t.drive(200);
+            }
+        }
+        t.panics.extend(panics);
+        t.catch_up();
+    }
+    fn invariant(&self, _t: &mut T2, _w: &mut PWorld) -> V3 {
+        vec![]
+    }
+    fn epilogue(&self, t: &mut T2, w: &mut PWorld) -> V3 {
+        let mut v = vec![];
+        let mut panics = vec![];
+        if !t.conn_alive() {
+            return v;
+        }
+        t.drive(300);
+        // 1. the peer finishes whatever it has not finished: the response, every promised stream
+        if !peer_closed(t, w.sid) && t.rst_sent(w.sid).is_empty() {
+            t.peer_response(w.sid, "200", true);
+        }
+        for &s in &w.promised.clone() {
+            if !peer_closed(t, s) && t.rst_sent(s).is_empty() {
+                if peer_headers_on(t, s) {
+                    t.peer_send(&wf::data(s, b"", true));
+                } else {
+                    t.peer_response(s, "200", true);
+                }
+            }
+        }
+        t.drive(300);
+        // 2. the application lets go of everything that belongs to a stream
+        safe_drop(&mut panics, "PushPromises", w.pp.take());
+        safe_drop(&mut panics, "ResponseFuture", w.rf.take());
+        safe_drop(&mut panics, "RecvStream", w.body.take());
+        for p in w.pushed.iter_mut() {
+            safe_drop(&mut panics, "PushedResponseFuture", p.prf.take());
+            safe_drop(&mut panics, "RecvStream", p.body.take());
+        }
+        t.drive(300);
+        t.catch_up();
+        t.panics.extend(panics.drain(..));
+        if !t.panics.is_empty() || !t.conn_alive() {
+            return v;
+        }
+        if t.goaway_sent().is_some() {
+            return v;
+        }
+        if let Conn::Client(c) = &t.conn {
+            let s = c.verif_snapshot();
+            leak_checks(&s, false, 1 + w.promised.len(), &mut v);
+        }
+        // 3. the last request handle goes
+        safe_drop(&mut panics, "SendRequest", w.sr.take());
+        let woken = t.conn_flag.is_set();
+        t.drive(300);
+        t.catch_up();
+        t.panics.extend(panics);
+        if !t.panics.is_empty() {
+            return v;
+        }
+        if t.conn_result.as_deref() != Some("ok") {
+            let already_failed = t.mon.frames.iter().any(|f| f.raw.ty == wf::ty::GOAWAY);
+            if !already_failed {
+                v.push(("C19.idle-close".into(), if woken { "not-closed".into() } else { "not-woken".into() }, format!("the last SendRequest and the last stream (incl. {} promised) are gone, but the connection future has not completed successfully (result {:?}, woken: {})", w.promised.len(), t.conn_result, woken)));
+            }
+        }
+        v
+    }
+    fn digest_extra(&self, t: &T2, w: &PWorld) -> String {
+        let mut s = format!("rf={} body={} pp={} taken={} promised={:?}", w.rf.is_some(), w.body.is_some(), w.pp.is_some(), w.taken, w.promised);
+        for p in &w.pushed {
+            s.push_str(&format!("|{}:prf={} body={}", p.sid, p.prf.is_some(), p.body.is_some()));
+        }
+        for sid in std::iter::once(w.sid).chain(w.promised.iter().copied()) {
+            s.push_str(&format!("|{}:peer={:?} rst={:?}", sid, peer_frames(t, sid).iter().map(|f| (f.raw.ty, f.raw.flags & 1)).collect::<Vec<_>>(), t.rst_sent(sid)));
+        }
+        s
+    }
+    fn teardown(&self, mut t: T2, w: PWorld) -> Vec<String> {
+        let mut panics = std::mem::take(&mut t.panics);
+        safe_drop(&mut panics, "PushPromises", w.pp);
+        safe_drop(&mut panics, "ResponseFuture", w.rf);
+        safe_drop(&mut panics, "RecvStream", w.body);
+        for p in w.pushed {
+            safe_drop(&mut panics, "PushedResponseFuture", p.prf);
+            safe_drop(&mut panics, "RecvStream", p.body);
+        }
+        safe_drop(&mut panics, "SendRequest", w.sr);
+        t.panics = panics;
+        t.finish()
+    }
+    fn counters(&self, _t: &T2, w: &PWorld) -> Vec<(&'static str, u64)> {
+        vec![("streams_promised", w.promised.len() as u64), ("promises_taken_by_app", w.pushed.len() as u64)]
+    }
+}
+
 pub fn run(ctx: &Ctx) -> Outcome {
     let mut out = Outcome::default();
     let quick = ctx.tier.is_quick();
@@ -732,7 +1056,9 @@ pub fn run(ctx: &Ctx) -> Outcome {
     let r5 = search(ctx, &s2, "C19", maxd, budget * 0.95, true);
     let r6 = search(ctx, &m4, "C19", maxd, budget * 1.15, true);
     let r7 = search(ctx, &s3, "C19", maxd, budget * 1.35, true);
-    fill_outcome(&mut out, &[(m1.name, &r1), (m2.name, &r2), (m3.name, &r3), (s1.name, &r4), (s2.name, &r5), (m4.name, &r6), (s3.name, &r7)]);
+    let p1 = PushLife::new(if quick { "push-life-q" } else { "push-life-t" }, quick);
+    let r8 = search(ctx, &p1, "C19", maxd + 1, budget * 1.55, true);
+    fill_outcome(&mut out, &[(m1.name, &r1), (m2.name, &r2), (m3.name, &r3), (s1.name, &r4), (s2.name, &r5), (m4.name, &r6), (s3.name, &r7), (p1.name, &r8)]);
     out.set("exhaustive", json!(false));
     out.set("alphabet", json!(m2.events.iter().map(|e| format!("{:?}", e)).collect::<Vec<_>>()));
     out.set("rule", json!("X2 on T2 (real client, stream window 6, 2-3 streams, two SendRequest clones, reset memory 'never expires' / 'expires at once', and a third start state with an exchange complete on the wire but not yet read): request (with / without body), END_STREAM, peer response (END_STREAM or not), peer DATA END_STREAM, peer RST_STREAM, poll the response, read, client reset, drop of ResponseFuture / SendStream / RecvStream / a SendRequest clone in every order relative to connection polls, time passing. Epilogue from every new state: every stream is finished by both sides, every stream handle dropped, quiescence - then the snapshot hook must show no stream record beyond <= 2 remembered local resets (none once expired), both stream counters 0, empty receive / send buffers, no in-flight octets, the whole connection send window unassigned; then the last SendRequest is dropped: the connection task must have been woken, GOAWAY(NO_ERROR) on the wire, transport shut down, future Ok(()). Any panic ('dangling store key', Store/Counts drop assertions) is a violation. Server side (two more models): peer opens up to two streams (with / without body), DATA, END_STREAM, RST_STREAM; the application responds (END_STREAM or not), ends the body, resets, pushes, reads, drops RecvStream / SendResponse / SendStream in every order relative to connection polls; the same leak oracle after everything has finished"));
@@ -745,6 +1071,7 @@ pub fn run(ctx: &Ctx) -> Outcome {
     vs.merge(r5.agg.vios);
     vs.merge(r6.agg.vios);
     vs.merge(r7.agg.vios);
+    vs.merge(r8.agg.vios);
     out.violations = vs.into_vec();
     out.guard_nonzero("client resets", out.coverage.get("mechanism_counters").and_then(|m| m.get("client_resets")).and_then(|v| v.as_u64()).unwrap_or(0));
     out
@@ -752,6 +1079,12 @@ pub fn run(ctx: &Ctx) -> Outcome {
 
 pub fn replay(v: &serde_json::Value) -> Option<bool> {
     let h = v["harness"].as_str().unwrap_or("");
+    if h == "x2.push-life-q" {
+        return Some(replay_model(&PushLife::new("push-life-q", true), "C19", v));
+    }
+    if h == "x2.push-life-t" {
+        return Some(replay_model(&PushLife::new("push-life-t", false), "C19", v));
+    }
     for quick in [true, false] {
         for (n, e, b) in [("server-life-remember", false, false), ("server-life-expire", true, false), ("server-life-blocked", false, true)] {
             let name: &'static str = Box::leak(format!("{}-{}", n, if quick { "q" } else { "t" }).into_boxed_str());
